@@ -17,7 +17,7 @@ from __future__ import annotations
 import ast
 
 from ..cfg import ENTRY, EXIT, header_parts
-from ..flow import Defs, Scope, absence_by_none, arg, caller_object_mutations, guards, iterations, nnf
+from ..flow import reachable_under, Defs, Scope, absence_by_none, arg, caller_object_mutations, guards, iterations, nnf
 from ..loader import AnalysisError, FuncInfo, dotted, norm, walk_no_nested
 from ..report import Ctx
 from ..selftest import Mutant
@@ -302,13 +302,11 @@ def rule_short_circuit(ctx: Ctx) -> None:  # noqa: C901, PLR0915
     flags = [x.id for t in hit[0].targets for x in ast.walk(t) if isinstance(x, ast.Name)]
     for i, flag in enumerate(flags[:2]):
         tests = cfg.nodes(lambda s, flag=flag: isinstance(s, ast.If) and any(isinstance(x, ast.Name) and x.id == flag for x in ast.walk(s.test)))
-        returning = [n for n in tests if any(isinstance(x, ast.Return) for x in ast.walk(cfg.stmt[n]))]
-        if i == 1:
-            good = bool(returning) and all(any(cfg.dominates(t, e) for t in returning) for e in exe)
-        else:
-            good = bool(returning)
-        ctx.tri("6-short-circuit", run_, cfg.stmt[tests[0]] if tests else run_.node, good, bool(tests) and not returning,
-                f"a hit (`{flag}`) returns before _execute_func", f"`{flag}` is tested but the branch does not return: a cache hit does not prevent the execution", f"`{flag}` is not tested in a recognised way", key=f"hit-returns {i}")
+        # the execution must be unreachable once the flag is true, whatever the shape of the branches
+        reach = [reachable_under(cfg, Defs(ast.Module(body=[], type_ignores=[])), e, {flag: True}, start=cfg.node(hit[0])) for e in exe]  # from where the flag is set
+        good = bool(tests) and all(r is False for r in reach)
+        ctx.tri("6-short-circuit", run_, cfg.stmt[tests[0]] if tests else run_.node, good, bool(tests) and any(r is True for r in reach),
+                f"a hit (`{flag}`) never reaches _execute_func", f"_execute_func is reachable although `{flag}` is true: a cache hit does not prevent the execution", f"`{flag}` is not tested in a recognised way", key=f"hit-returns {i}")
     grc = hit[0].value
     lazy_hit = arg(grc, 7, "lazy")
     fresh = [c for c in ast.walk(run_.node) if isinstance(c, ast.Call) and dotted(c.func) == "_update_all_results"]
